@@ -6,6 +6,7 @@ package gohbase
 // build tag `verif` adds no code. Syntax: /verif/DESIGN.md section 2.2.
 
 //@ func gohbase.sleepAndIncreaseBackoff
+//@   dead return 1 "the test hook sleepAndIncreaseBackoffOverride is nil (precondition, A7)"
 //@   requires sleepAndIncreaseBackoffOverride == nil
 //@   requires backoff >= 0
 //@   modifies X.slept, X.ctxdone, X.nsleeps
@@ -313,6 +314,8 @@ package gohbase
 // not end at or before the key (a hole in hbase:meta or a same-prefixed table is reported as an error, not routed to)
 //@ func gohbase.(*client).metaLookup
 //@   requires len(table) <= 32764
+// (the fixed master / meta descriptors exist before any lookup: a descriptor parsed by the lookup is neither of them)
+//@   requires allocated(c.adminRegionInfo) && allocated(c.metaRegionInfo)
 //@   modifies X.ctxdone, X.regionstate, X.attempts, X.callregion, X.closereq
 //@   panics never[C01]
 //@   ensures[C01] r2 == nil ==> routes(r0, table, key)
@@ -437,6 +440,7 @@ package gohbase
 //@   modifies X.ctxdone
 
 //@ func gohbase.(*client).establishRegion
+//@   dead return 1 "the test hook establishRegionOverride is nil (precondition, A7)"
 //@   at call put#2 assume-shared rccNonNil(c.clients) && rccUniq(c.clients) && c.clients.logger != nil
 //@   at call clientDown#1 assume-shared rccNonNil(c.clients)
 //@   at call clientDown#2 assume-shared rccNonNil(c.clients)
@@ -559,7 +563,7 @@ package gohbase
 //@ func gohbase.RPCClient.SendRPC(rpc) (msg, err)
 //@   modifies X.attempts, X.ctxdone, X.regionstate, X.callregion, F.hrpc.base.region
 //@   ensures err == nil ==> msg != nil && (typeis(rpc, "*hrpc.Scan") ==> cast(rpc, "*hrpc.Scan").region != nil)
-//@   ensures err == nil && typeis(msg, "*pb.ScanResponse") ==> resultsWF(cast(msg, "*pb.ScanResponse").Results) && forall(k, 0 <= k && k < len(cast(msg, "*pb.ScanResponse").Results), !was(allocated(cast(msg, "*pb.ScanResponse").Results[k])))
+//@   ensures err == nil && typeis(msg, "*pb.ScanResponse") ==> resultsWF(cast(msg, "*pb.ScanResponse").Results) && forall(k, 0 <= k && k < len(cast(msg, "*pb.ScanResponse").Results), ghostold("alloc", cast(msg, "*pb.ScanResponse").Results[k]) != 1)
 // the request for the current position (C06): a new region scan starts at the scanner's current start row and ends at the
 // scan's stop row, on the scan's table; a continuation names the region scanner that is open and nothing else
 //@ func gohbase.(*scanner).request
@@ -568,7 +572,7 @@ package gohbase
 //@   at call NewScanRange#1 assert[C06] sameslice(arg1, s.rpc.Table()) && sameslice(arg2, s.startRow) && sameslice(arg3, s.rpc.StopRow())
 //@   at call NewScanRange#2 assert[C06] sameslice(arg1, s.rpc.Table()) && sameslice(arg2, s.startRow)
 //@   at call ScannerID#1 assert[C06] arg0 == s.curRegionScannerID
-//@   ensures r2 == nil ==> r0 != nil && r1 != nil && resultsWF(r0.Results) && forall(k, 0 <= k && k < len(r0.Results), !was(allocated(r0.Results[k])))
+//@   ensures r2 == nil ==> r0 != nil && r1 != nil && resultsWF(r0.Results) && forall(k, 0 <= k && k < len(r0.Results), ghostold("alloc", r0.Results[k]) != 1)
 
 //@ func gohbase.(*scanner).shift
 //@   modifies F.gohbase.scanner.results, contents(s.results)
@@ -586,7 +590,7 @@ package gohbase
 //@   modifies F.gohbase.scanner.closed, F.gohbase.scanner.curRegionScannerID, F.gohbase.scanner.startRow, V.map[string]int64, D.map[string]int64, C.map[string]int64, X.attempts, X.ctxdone, X.regionstate, X.callregion, X.closereq
 //@   panics never[C14]
 //@   ensures[C14] r1 != nil ==> s.closed && r0 == nil
-//@   ensures[C14] r1 == nil ==> len(r0) > 0 && resultsWF(r0) && forall(k, 0 <= k && k < len(r0), !was(allocated(r0[k])))
+//@   ensures[C14] r1 == nil ==> len(r0) > 0 && resultsWF(r0) && forall(k, 0 <= k && k < len(r0), ghostold("alloc", r0[k]) != 1)
 //@   ensures[C14] scannerWF(s)
 //@   loop 1 invariant[C14] scannerWF(s) && !s.closed
 
@@ -608,7 +612,7 @@ package gohbase
 //@   ensures[C14] r1 != nil ==> s.closed && r0 == nil && len(s.results) == 0
 //@   ensures[C14] old(s.closed) && old(len(s.results)) == 0 ==> r1 == io.EOF
 // the buffer is either what it was or a batch of results that did not exist before
-//@   ensures[C14] sameslice(s.results, old(s.results)) || forall(k, 0 <= k && k < len(s.results), !was(allocated(s.results[k])))
+//@   ensures[C14] sameslice(s.results, old(s.results)) || forall(k, 0 <= k && k < len(s.results), ghostold("alloc", s.results[k]) != 1)
 //@   ensures[C14] forall(x, was(allocated(x)) && x != nil && forall(j, 0 <= j && j < old(len(s.results)), was(s.results[j]) != x) ==> forall(k, 0 <= k && k < len(s.results), s.results[k] != x))
 
 //@ func gohbase.toLocalResult
